@@ -974,8 +974,13 @@ fn callee_json<'a, 'tcx>(bv: &BV<'a, 'tcx>, func: &Operand<'tcx>, _fn_span: Span
     match fty.kind() {
         ty::FnDef(did, gargs) => {
             let decl = cname(tcx, *did);
-            let targs: Vec<String> =
+            let mut targs: Vec<String> =
                 gargs.iter().filter_map(|a| a.as_type()).map(|t| esc(&ty_short(tcx, t))).collect();
+            // const generic arguments (`call::<true>(..)`), rendered as "const:<value>" ("const:M" when it is the
+            // caller's own parameter)
+            for c in gargs.iter().filter_map(|a| a.as_const()) {
+                targs.push(esc(&format!("const:{}", c)));
+            }
             let (res, how) = match Instance::try_resolve(tcx, bv.tenv, *did, gargs) {
                 Ok(Some(inst)) => match inst.def {
                     InstanceKind::Item(d) => (cname(tcx, d), "r"),
